@@ -485,19 +485,45 @@ def x1(model: Model, rep: Report):
         rep.ok("C12.X1", "RepetitionExperimentKernel.estimate_experiment_repetitions[no kernel chain]", est.loc, found="closed-form cycle length (no kernels constructed)", required="chain of kernels, or a closed form decided by C12.X5")
 
 
+def _follow_delegation(model: Model, f):
+    """``def m(a, b, c): return helper(a, b, c)`` -- the helper is the function to read (a method kept as a thin wrapper after its body moved)."""
+    seen = set()
+    while f is not None and f not in seen:
+        seen.add(f)
+        body = [st for st in f.node.body if not (isinstance(st, ast.Expr) and isinstance(st.value, ast.Constant))]
+        if len(body) != 1 or not isinstance(body[0], ast.Return) or not isinstance(body[0].value, ast.Call):
+            return f
+        call = body[0].value
+        params = [p for p in f.param_names if p not in ("self", "cls")]
+        passed = [a.id if isinstance(a, ast.Name) else None for a in call.args] + [k.value.id if isinstance(k.value, ast.Name) else None for k in call.keywords]
+        if passed != params:
+            return f
+        name = call.func.id if isinstance(call.func, ast.Name) else call.func.attr if isinstance(call.func, ast.Attribute) else None
+        tgt = model.lookup_symbol(f.module, name) if isinstance(call.func, ast.Name) else None
+        if tgt is None and isinstance(call.func, ast.Attribute) and isinstance(call.func.value, ast.Name) and f.cls is not None and call.func.value.id in ("self", "cls", f.cls.name):
+            tgt = f.cls.resolve(name)
+        from ..model import FunctionInfo as _FI
+        if not isinstance(tgt, _FI) or tgt.name == f.name and tgt is f:
+            return f
+        if [p for p in tgt.param_names if p not in ("self", "cls")][:len(params)] != params and len([p for p in tgt.param_names if p not in ("self", "cls")]) != len(params):
+            return f
+        f = tgt
+    return f
+
+
 # ---------------------------------------------------------------------------------------------
 def x4(model: Model, rep: Report):
     rep.rule("C12.X4", "create_sliced_arrays(list, cycle, reps) == [array(list) + i * cycle for i in range(reps)]; kernel_cycle_length == last.stop_index - "
                        "first.start_index + 1; every experiment getter slices the matching kernel getter with (kernel_cycle_length, experiment_repetitions)")
     E = model.cls("RepetitionExperimentKernel")
-    f = E.resolve("create_sliced_arrays")
+    f = _follow_delegation(model, E.resolve("create_sliced_arrays"))
     il, cl, rp = (sym(p) for p in f.param_names[:3])
     ok = None
     found = ""
     try:
         v = Evaluator(model, inline_methods=False).value_of(f, self_cls=E)
         found = show(v)
-        inner = v[2][0] if v[0] == "call" and isinstance(v[1], tuple) and v[1][2] in ("asarray", "array") and v[2] else v
+        inner = v[2][0] if v[0] == "call" and isinstance(v[1], tuple) and len(v[1]) > 2 and v[1][2] in ("asarray", "array") and v[2] else v
         if inner[0] == "comp" and len(inner[3]) == 1 and not inner[3][0][1]:
             ok = False
             it = inner[3][0][0]
@@ -539,10 +565,21 @@ def x4(model: Model, rep: Report):
         rep.assume("a vectorised create_sliced_arrays is decided on all shapes up to 4 x 4 with symbolic elements (index maps of repeat / tile / reshape are periodic in the dimensions)")
     rep.check(ok, "C12.X4", "RepetitionExperimentKernel.create_sliced_arrays", f.loc, found=found, required="[np.array(int_list) + i * cycle_length for i in range(repetitions)]",
               what="successive experiment repetitions are not exact translates of the first cycle by the cycle length" + (": " + found if not ok else ""), detail="translate")
-    g = E.resolve("create_sliced_array")
-    v = Evaluator(model, inline_methods=False).value_of(g, self_cls=E)
-    ok = v[0] == "call" and isinstance(v[1], tuple) and v[1][2] == "concatenate" and len(v[2]) == 1 and find_calls(v[2][0], "create_sliced_arrays") and \
-        [dict(c[3]) for c in find_calls(v[2][0], "create_sliced_arrays")][0] == {"int_list": sym(g.param_names[0]), "cycle_length": sym(g.param_names[1]), "repetitions": sym(g.param_names[2])}
+    g = _follow_delegation(model, E.resolve("create_sliced_array"))
+    v = Evaluator(model, inline_methods=False).value_of(g, self_cls=g.cls)
+    # np.concatenate(rows) and rows.flatten() / .ravel() / .reshape(-1) of the two-dimensional result are the same row-major flattening
+    flat_of = None
+    if v[0] == "call" and isinstance(v[1], tuple) and len(v[1]) > 2 and v[1][2] == "concatenate" and len(v[2]) == 1:
+        flat_of = v[2][0]
+    elif v[0] == "call" and isinstance(v[1], tuple) and len(v[1]) > 2 and v[1][0] == "attr" and (v[1][2] in ("flatten", "ravel") and not v[2] or v[1][2] == "reshape" and v[2] == (lin({}, Fraction(-1)),)):
+        flat_of = v[1][1]
+    calls = find_calls(flat_of, f.name) if flat_of is not None else []
+    def _args_of(c):
+        d = dict(c[3])
+        for i_, a_ in enumerate(c[2]):
+            d[f.param_names[i_]] = a_
+        return d
+    ok = bool(calls) and flat_of == calls[0] and _args_of(calls[0]) == {f.param_names[0]: sym(g.param_names[0]), f.param_names[1]: sym(g.param_names[1]), f.param_names[2]: sym(g.param_names[2])}
     rep.check(ok, "C12.X4", "RepetitionExperimentKernel.create_sliced_array", g.loc, found=show(v), required="np.concatenate(create_sliced_arrays(int_list, cycle_length, repetitions))", what="flattened slicing differs", detail="flat")
     # cycle length
     c = E.resolve("kernel_cycle_length")
